@@ -14,8 +14,8 @@ from .. import simenv
 from ..core import Lab, Violation, exc_violation
 from . import inject_reg as R
 
-RELS = ["byname", "prefix", "both", "absent", "wrongtype", "subclass", "falsy", "preset", "init", "private", "generic", "comp_ref", "byname", "prefix", "shared"]
-CTOR_RELS = ["byname", "prefix", "absent", "wrongtype", "comp_earlier", "comp_later", "private", "falsy", "byname", "subclass"]
+RELS = ["byname", "prefix", "both", "absent", "wrongtype", "subclass", "falsy", "preset", "init", "private", "generic", "comp_ref", "byname", "callable", "shared"]
+CTOR_RELS = ["byname", "prefix", "absent", "wrongtype", "comp_earlier", "comp_later", "private", "falsy", "callable", "subclass"]
 TYPES = ["Inj", "Other", "int", "str", "tuple", "float"]
 FALSY = {"int": 0, "str": "", "tuple": (), "float": 0.0, "bool": False}
 GENERICS = ["List[int]", "list[int]", "Tuple[int, int]", "Dict[str, int]"]
@@ -25,6 +25,7 @@ def ann_obj(name):
     return {
         "Inj": R.Inj, "Other": R.Other, "int": int, "str": str, "tuple": tuple, "float": float, "bool": bool,
         "List[int]": typing.List[int], "list[int]": list[int], "Tuple[int, int]": typing.Tuple[int, int], "Dict[str, int]": typing.Dict[str, int],
+        "partial": __import__("functools").partial,
     }[name]
 
 
@@ -104,6 +105,10 @@ class Plan:
             self._put(n, wrong(ann, s))
         if rel == "subclass":
             self._put(n, R.SubInj())
+        if rel == "callable":
+            import functools
+
+            self._put(n, R.CallableInj() if ann == "Inj" else functools.partial(int, "7"))
         if rel == "falsy":
             self._put(n, FALSY[ann])
         if rel == "shared":
@@ -281,7 +286,7 @@ def write_mode(mode):
     open(os.path.join(pkg, "__init__.py"), "w").close()
     lines = []
     for a in mode["attrs"]:
-        t = {"List[int]": "typing.List[int]", "Tuple[int, int]": "typing.Tuple[int, int]", "Dict[str, int]": "typing.Dict[str, int]"}.get(a["ann"], a["ann"])
+        t = {"List[int]": "typing.List[int]", "Tuple[int, int]": "typing.Tuple[int, int]", "Dict[str, int]": "typing.Dict[str, int]", "partial": "__import__('functools').partial"}.get(a["ann"], a["ann"])
         if t.startswith("class:"):
             t = f"Probe.classes[{int(t[6:])}]"
         if a["rel"] == "preset":
@@ -317,6 +322,8 @@ def decode(code):
         a = {"n": n, "rel": rel, "ann": TYPES[type_c], "also_on_robot": also}
         if rel == "subclass":
             a["ann"] = "Inj"
+        elif rel == "callable":
+            a["ann"] = ["Inj", "partial"][type_c % 2]
         elif rel == "falsy":
             a["ann"] = ["int", "str", "tuple", "float", "bool", "int"][type_c]
         elif rel == "generic":
@@ -355,6 +362,8 @@ def decode(code):
             a = {"n": f"p{k}_{j}", "rel": rel, "ann": TYPES[type_c]}
             if rel == "subclass":
                 a["ann"] = "Inj"
+            elif rel == "callable":
+                a["ann"] = ["Inj", "partial"][type_c % 2]
             elif rel == "falsy":
                 a["ann"] = ["int", "str", "tuple", "float", "int", "str"][type_c]
             elif rel == "private":
@@ -401,7 +410,7 @@ class C08(Lab):
     rule = (
         "generated robot definition: 1-3 component classes x 1-4 components (classes may be shared), each annotated attribute in one of 14 relations to the robot (present by name, "
         "present only as <component>_<attr>, both, absent, wrong type, subclass instance, falsy value, preset on the class, assigned in __init__, private, generic alias, reference to "
-        "another component declared earlier or later, annotation inherited from a base class, one name shared by several components), constructor parameters in 9 relations (incl. later "
+        "another component declared earlier or later, annotation inherited from a base class, one name shared by several components, a callable object), constructor parameters in 9 relations (incl. later "
         "component and private name, which must fail), robot attributes at class level or in createObjects of a base or derived robot class, optionally an on-disk autonomous mode with "
         "annotated attributes; real robotInit(). Oracle = independent resolver written from the statement: identity of every injected object, untouched attributes, MagicInjectError iff "
         "some request cannot be resolved, snapshot from inside every setup(). Non-trivial = at least one prefix-resolved, cross-component, falsy or failing request"
@@ -457,7 +466,7 @@ class C08(Lab):
                 err = e
             rels = {r["rel"] for r in plan.requests}
             classes = sorted("rel:" + r for r in rels) + (["mode"] if case.get("mode") else []) + (["expect-error"] if want_error else ["expect-ok"])
-            nontrivial = bool(rels & {"prefix", "both", "comp_ref", "falsy", "absent", "wrongtype", "private", "shared"})
+            nontrivial = bool(rels & {"prefix", "both", "comp_ref", "falsy", "absent", "wrongtype", "private", "shared", "callable"})
             if want_error:
                 if err is None:
                     bad = [r for r in plan.requests if (r["owner"], r["attr"]) not in exp and (r["owner"], r["attr"]) not in plan.exp_ctor]
